@@ -1,5 +1,5 @@
 #!/bin/bash
-# usage: scripts/seedconfirm.sh <ID> <n> [full]
+# usage: [SEED_SRC=/tmp/seed2-<ID>-out SEED_DST_N=<m>] scripts/seedconfirm.sh <ID> <n> [full]
 # Confirms seeded change n for property ID delivered in /tmp/seed-<ID>-out/ in a fresh scratch worktree:
 #  (1) demo passes on HEAD, (2) patch applies and builds, (3) demo fails with the patch, (4) tests of the changed packages
 #  (and with "full" the whole suite) pass with the patch, then (5) runs the property's quick check against the patched
@@ -8,8 +8,8 @@ set -u
 cd "$(dirname "$0")/.."
 . scripts/env.sh
 ID="$1"; N="$2"; FULL="${3:-}"
-SRC=/tmp/seed-$ID-out
-DST=/verif/seeded/$ID-$N
+SRC="${SEED_SRC:-/tmp/seed-$ID-out}"
+DST=/verif/seeded/$ID-${SEED_DST_N:-$N}
 [ -f "$SRC/patch$N.diff" ] || { echo "no patch"; exit 2; }
 mkdir -p "$DST"
 cp "$SRC/patch$N.diff" "$DST/patch.diff"
